@@ -748,6 +748,9 @@ class TimeExceeded (icmp_base):
   def hdr (self, payload):
     return struct.pack('!I', 0) # Unused
 
+  def pack (self):
+    return packet_base.pack(self)
+
 
 class PacketTooBig (icmp_base):
   "Packet Too Big Message"
@@ -777,7 +780,7 @@ class PacketTooBig (icmp_base):
     if buf_len is None: buf_len = len(raw)
 
     try:
-      o.mtu = struct.unpack_from("!I", raw, offset)
+      o.mtu = struct.unpack_from("!I", raw, offset)[0]
       offset += 4
 
       o.next = raw[offset:buf_len]
@@ -793,6 +796,9 @@ class PacketTooBig (icmp_base):
 
   def hdr (self, payload):
     return struct.pack('!I', self.mtu)
+
+  def pack (self):
+    return packet_base.pack(self)
 
 
 class unpack_new_adapter (object):
@@ -879,6 +885,7 @@ class unreach (packet_base, unpack_new_adapter):
   MIN_LEN = 4
 
   def __init__ (self, raw=None, prev=None, **kw):
+    packet_base.__init__(self)
 
     self.prev = prev
 
@@ -907,10 +914,10 @@ class unreach (packet_base, unpack_new_adapter):
 
     self.parsed = True
 
-    from . import ipv6
+    from .ipv6 import ipv6
     # xxx We're assuming this is IPv6!
     if dlen >= 8 + ipv6.MIN_LEN:
-      self.next = ipv6.ipv6(raw=raw[unreach.MIN_LEN:],prev=self)
+      self.next = ipv6(raw=raw[unreach.MIN_LEN:],prev=self)
     else:
       self.next = raw[unreach.MIN_LEN:]
 
